@@ -17,12 +17,17 @@ func init() {
 			ID: "C15", Title: "Prefix and address arithmetic matches the bit-level definitions", Level: "other",
 			Technique:   "shift/mask width agreement (R-WIDTH) on the typed AST of package net: shift base vs. operand width, all-ones constant width, half-word thresholds and position bounds from the dominating guards",
 			DesignRef:   "DESIGN.md §3 R-WIDTH, §4 C15",
-			Decided:     "in every non-constant shift `K op (B − e)` of the address/prefix helpers of package net (containment, supernet, validity, base address, bit-at-position, last-N-bits masks): (1) the base B equals the width W of the shifted operand, or 2·W where the low half of a 128-bit address is selected; (2) an all-ones constant used as the shifted mask is all-ones of width W (a narrower one yields a mask that misses the high bits for every e); (3) the bounds the dominating guards put on e agree with B: the high-half branch is taken for exactly e ≤ 64, the low-half branch for e > 64, and a position guard does not exclude the legal position e = B.  Evaluating the idiom at the boundary shows any other constant gives a wrong mask/bit for some legal input.",
-			NotDecided:  "everything else in the statement: containment, supernet, ordering, base address as numerical results over 2^128 values, and the print/parse round trip, are not decidable by this family; R-WIDTH does not see logic errors that keep widths consistent.",
+			Decided:     "(0) IP.Compare is a lexicographic comparison in normal form of the high address word, then the low word, by the unsigned operators on the words themselves, +1 for the greater receiver (so address ordering is the numerical order of the 128-bit value); (0b) every equality in containsIPv4/containsIPv6 compares E[pfx.addr] with E[x.addr] for one and the same E (locals inlined): both addresses are masked alike; in every non-constant shift `K op (B − e)` of the address/prefix helpers of package net (containment, supernet, validity, base address, bit-at-position, last-N-bits masks): (1) the base B equals the width W of the shifted operand, or 2·W where the low half of a 128-bit address is selected; (2) an all-ones constant used as the shifted mask is all-ones of width W (a narrower one yields a mask that misses the high bits for every e); (3) the bounds the dominating guards put on e agree with B: the high-half branch is taken for exactly e ≤ 64, the low-half branch for e > 64, and a position guard does not exclude the legal position e = B.  Evaluating the idiom at the boundary shows any other constant gives a wrong mask/bit for some legal input.",
+			NotDecided:  "everything else in the statement: containment, supernet, base address as numerical results over 2^128 values, and the print/parse round trip, are not decidable by this family; R-WIDTH does not see logic errors that keep widths consistent.",
 			TrustedBase: stdTrusted,
 		},
 		Run: runC15,
 		Controls: []Control{
+			{Name: "containment-masks-one-address-only", File: "net/prefix.go", Old: "\treturn (pfx.addr.ToUint32() & mask) == (x.addr.ToUint32() & mask)\n", New: "\treturn pfx.addr.ToUint32() == (x.addr.ToUint32() & mask)\n", Expect: "containment-treats-both-addresses-alike"},
+			{Name: "refactor-containment-through-locals", Silent: true, File: "net/prefix.go", Old: "\treturn (pfx.addr.ToUint32() & mask) == (x.addr.ToUint32() & mask)\n", New: "\tmine := pfx.addr.ToUint32() & mask\n\ttheirs := x.addr.ToUint32() & mask\n\treturn theirs == mine\n"},
+			{Name: "supernet-half-chosen-by-other-length", File: "net/prefix.go", Old: "\tif pfxLen > 64 {\n\t\tmask := uint64(math.MaxUint64 << (128 - pfxLen))", New: "\tif maxPfxLen > 64 {\n\t\tmask := uint64(math.MaxUint64 << (128 - pfxLen))", Expect: "bound-agrees-with-base"},
+			{Name: "address-order-by-subtraction", File: "net/ip.go", Old: "\tif ip.lower > other.lower {\n\t\treturn 1\n\t}\n\n\tif ip.lower < other.lower {\n\t\treturn -1\n\t}\n", New: "\tif int64(ip.lower-other.lower) > 0 {\n\t\treturn 1\n\t}\n\n\tif int64(ip.lower-other.lower) < 0 {\n\t\treturn -1\n\t}\n", Expect: "address-ordering"},
+			{Name: "address-order-low-word-first", File: "net/ip.go", Old: "\tif ip.higher > other.higher {\n\t\treturn 1\n\t}\n\n\tif ip.higher < other.higher {\n\t\treturn -1\n\t}\n\n\tif ip.lower > other.lower {\n\t\treturn 1\n\t}\n\n\tif ip.lower < other.lower {\n\t\treturn -1\n\t}\n", New: "\tif ip.lower > other.lower {\n\t\treturn 1\n\t}\n\n\tif ip.lower < other.lower {\n\t\treturn -1\n\t}\n\n\tif ip.higher > other.higher {\n\t\treturn 1\n\t}\n\n\tif ip.higher < other.higher {\n\t\treturn -1\n\t}\n", Expect: "address-ordering"},
 			{Name: "ipv6-mask-from-32-bit-constant", File: "net/prefix.go", Old: "\t\tmaskHigh = math.MaxUint64 << (64 - pfx.len)", New: "\t\tmaskHigh = math.MaxUint32 << (64 - pfx.len)", Expect: "mask-constant-width"},
 			{Name: "bit-position-guard-excludes-last-bit", File: "net/ip.go", Old: "\tif pos > 32 {\n\t\treturn false\n\t}", New: "\tif pos >= 32 {\n\t\treturn false\n\t}", Expect: "bound-agrees-with-base"},
 			{Name: "half-threshold-off", File: "net/prefix.go", Old: "\tif p.len <= 64 {\n\t\taddr.lower = 0", New: "\tif p.len < 64 {\n\t\taddr.lower = 0", Expect: "bound-agrees-with-base"},
@@ -49,100 +54,49 @@ func typeWidth(t types.Type) int {
 	return 0
 }
 
+// addressOrdering: IP.Compare orders addresses as 128-bit unsigned numbers: a lexicographic comparison of the high word,
+// then the low word, each by the unsigned operators < and > on the words themselves (no arithmetic on them: a
+// subtraction-based comparator inverts the order whenever the words are 2^63 or more apart).
+func addressOrdering(c *core.Ctx) {
+	const rule = "address-ordering"
+	c.Floor(rule, 3)
+	f := c.MustFunc("net.(*IP).Compare")
+	if f == nil {
+		return
+	}
+	c.Analysed(f)
+	form := core.AnalyzeComparator(f, func(*types.Func) bool { return false })
+	for _, pr := range form.Problems {
+		c.Fail(rule, f.Name()+" "+pr.Key+" shape", pr.Pos, pr.What+" — the comparison is not a lexicographic comparison of the address words by < and >")
+	}
+	c.Check(form.Ends0, rule, f.Name()+" reports equality last", f.Decl.Pos(), "the comparator does not end in `return 0`")
+	want := []string{"$.higher", "$.lower"}
+	for i, w := range want {
+		ok := i < len(form.Steps) && form.Steps[i].Key == w && form.Steps[i].Prefers == "higher" && form.Steps[i].Guarded == ""
+		pos := f.Decl.Pos()
+		got := "no such step"
+		if i < len(form.Steps) {
+			pos = form.Steps[i].Pos
+			got = form.Steps[i].Key + " (+1 for the " + form.Steps[i].Prefers + " one)"
+		}
+		c.Check(ok, rule, fmt.Sprintf("%s step %d compares %s, greater receiver first", f.Name(), i+1, w), pos, "step "+fmt.Sprint(i+1)+" of the address comparison is "+got+", expected the word "+w+" with +1 for the greater receiver: the order of addresses (and everything sorted by it: best-path tie-break on peer address, next hops) is not the numerical order")
+	}
+	c.Check(len(form.Steps) == len(want), rule, f.Name()+" compares exactly the two address words", f.Decl.Pos(), fmt.Sprintf("%d comparison steps found, expected 2", len(form.Steps)))
+}
+
 func runC15(c *core.Ctx) {
 	p := c.P
+	addressOrdering(c)
+	containmentMirror(c)
 	pk := p.Pkg("net")
 	if pk == nil {
 		c.Undecided("anchor", "net", token.NoPos, "package not found")
 		return
 	}
-	fam := addressFamilies(p)
 	c.Floor("shift-base-width", 14)
 	c.Floor("mask-constant-width", 4)
 	c.Floor("bound-agrees-with-base", 6)
-	for _, f := range p.FuncsIn("net") {
-		if f.Decl.Body == nil {
-			continue
-		}
-		ord := 0
-		ast.Inspect(f.Decl.Body, func(n ast.Node) bool {
-			be, ok := n.(*ast.BinaryExpr)
-			if !ok || (be.Op != token.SHL && be.Op != token.SHR) {
-				return true
-			}
-			// shift count of the form (B - e) with constant B and non-constant e
-			cnt, ok := core.Unparen(be.Y).(*ast.BinaryExpr)
-			if !ok || cnt.Op != token.SUB {
-				return true
-			}
-			bv := core.ConstOf(f.Pkg, cnt.X)
-			if bv == nil || core.ConstOf(f.Pkg, cnt.Y) != nil {
-				return true
-			}
-			B, _ := constant.Int64Val(bv)
-			// operand width
-			xt := f.Pkg.TypesInfo.TypeOf(be.X)
-			W := 0
-			if xt != nil {
-				W = typeWidth(xt)
-			}
-			ord++
-			c.Analysed(f)
-			site := fmt.Sprintf("%s shift #%d `%s`", f.Name(), ord, core.ExprString(be))
-			if W == 0 {
-				c.Undecided("shift-base-width", site, be.Pos(), "cannot determine the width of the shifted operand")
-				return true
-			}
-			switch fam[f] {
-			case 4:
-				c.Check(B == 32, "shift-base-width", site, be.Pos(),
-					fmt.Sprintf("shift count is (%d − e) in a function that is only reached for IPv4 addresses (32 bits): for prefix length/position e = 32 the idiom must shift by 0; with base %d it does not", B, B))
-			case 6:
-				c.Check(B == 64 || B == 128, "shift-base-width", site, be.Pos(),
-					fmt.Sprintf("shift count is (%d − e) in a function that is only reached for IPv6 addresses (two 64-bit halves): the base must be 64 (high half) or 128 (low half)", B))
-			default:
-				c.Check(int(B) == W || (W == 64 && B == 128), "shift-base-width", site, be.Pos(),
-					fmt.Sprintf("shift count is (%d − e) but the shifted operand is %d bits wide: for e = %d the idiom must shift by 0 and for e = 0 by the full width; with base %d it does neither", B, W, W, B))
-			}
-			if fam[f] == 6 && B == 128 {
-				W = 64
-			}
-			// (2) all-ones constants
-			if xv := core.ConstOf(f.Pkg, be.X); xv != nil && xv.Kind() == constant.Int {
-				bi, okb := new(big.Int).SetString(xv.ExactString(), 10)
-				if okb && bi.Cmp(big.NewInt(1)) > 0 {
-					plus := new(big.Int).Add(bi, big.NewInt(1))
-					if plus.BitLen()-1 > 0 && new(big.Int).Lsh(big.NewInt(1), uint(plus.BitLen()-1)).Cmp(plus) == 0 {
-						k := plus.BitLen() - 1
-						c.Check(k == W, "mask-constant-width", site, be.Pos(),
-							fmt.Sprintf("the shifted mask constant is all-ones of %d bits but the mask is %d bits wide: the upper %d bits of the result are always 0, so those address bits are ignored", k, W, W-k))
-					}
-				}
-			}
-			// (3) bounds on e from the dominating guards
-			lo, hi, haveLo, haveHi := core.BoundsOn(f, be, cnt.Y)
-			// an IPv6 prefix length (0..128) subtracted from a base without the matching half-word guard wraps around
-			if fam[f] == 6 && isPrefixLen(f, cnt.Y) {
-				switch B {
-				case 64:
-					c.Check(haveHi && hi <= 64, "bound-agrees-with-base", site+" guarded by len ≤ 64", be.Pos(),
-						"shift by (64 − prefix length) is not dominated by a `length ≤ 64` guard: for lengths above 64 the uint8 subtraction wraps, the shift clears the whole word and the upper 64 address bits are ignored")
-				case 128:
-					c.Check(haveLo && lo >= 65, "bound-agrees-with-base", site+" guarded by len > 64", be.Pos(),
-						"shift by (128 − prefix length) is not dominated by a `length > 64` guard: for lengths up to 64 the shift is ≥ 64 and the mask degenerates")
-				}
-			}
-			if haveHi {
-				c.Check(hi == B, "bound-agrees-with-base", site+" upper bound", be.Pos(),
-					fmt.Sprintf("the guards admit e ≤ %d here but the shift base is %d: legal value e = %d is excluded or values beyond the base are admitted", hi, B, B))
-			}
-			if haveLo && B == 128 && W == 64 {
-				c.Check(lo == 65, "bound-agrees-with-base", site+" lower bound", be.Pos(),
-					fmt.Sprintf("the low-half branch is taken for e ≥ %d; it must be taken exactly for e > 64 (shift (128 − e) must stay below 64)", lo))
-			}
-			return true
-		})
-	}
+	shiftRules(c, func(*core.Fn) bool { return true })
 	// both halves take part in IPv6 containment: every return of containsIPv6 compares the upper halves, and the
 	// return(s) reachable for lengths above 64 compare the lower halves too
 	if f := c.MustFunc("net.(*Prefix).containsIPv6"); f != nil {
@@ -228,6 +182,96 @@ func runC15(c *core.Ctx) {
 	}
 }
 
+// shiftRules applies the R-WIDTH rules to the shift idioms of package net (shared by C15 and, for the functions the trie
+// relies on, C01).
+func shiftRules(c *core.Ctx, scope func(*core.Fn) bool) {
+	p := c.P
+	fam := addressFamilies(p)
+	for _, f := range p.FuncsIn("net") {
+		if f.Decl.Body == nil || !scope(f) {
+			continue
+		}
+		ord := 0
+		ast.Inspect(f.Decl.Body, func(n ast.Node) bool {
+			be, ok := n.(*ast.BinaryExpr)
+			if !ok || (be.Op != token.SHL && be.Op != token.SHR) {
+				return true
+			}
+			// shift count of the form (B - e) with constant B and non-constant e
+			cnt, ok := core.Unparen(be.Y).(*ast.BinaryExpr)
+			if !ok || cnt.Op != token.SUB {
+				return true
+			}
+			bv := core.ConstOf(f.Pkg, cnt.X)
+			if bv == nil || core.ConstOf(f.Pkg, cnt.Y) != nil {
+				return true
+			}
+			B, _ := constant.Int64Val(bv)
+			// operand width
+			xt := f.Pkg.TypesInfo.TypeOf(be.X)
+			W := 0
+			if xt != nil {
+				W = typeWidth(xt)
+			}
+			ord++
+			c.Analysed(f)
+			site := fmt.Sprintf("%s shift #%d `%s`", f.Name(), ord, core.ExprString(be))
+			if W == 0 {
+				c.Undecided("shift-base-width", site, be.Pos(), "cannot determine the width of the shifted operand")
+				return true
+			}
+			switch fam[f] {
+			case 4:
+				c.Check(B == 32, "shift-base-width", site, be.Pos(),
+					fmt.Sprintf("shift count is (%d − e) in a function that is only reached for IPv4 addresses (32 bits): for prefix length/position e = 32 the idiom must shift by 0; with base %d it does not", B, B))
+			case 6:
+				c.Check(B == 64 || B == 128, "shift-base-width", site, be.Pos(),
+					fmt.Sprintf("shift count is (%d − e) in a function that is only reached for IPv6 addresses (two 64-bit halves): the base must be 64 (high half) or 128 (low half)", B))
+			default:
+				c.Check(int(B) == W || (W == 64 && B == 128), "shift-base-width", site, be.Pos(),
+					fmt.Sprintf("shift count is (%d − e) but the shifted operand is %d bits wide: for e = %d the idiom must shift by 0 and for e = 0 by the full width; with base %d it does neither", B, W, W, B))
+			}
+			if fam[f] == 6 && B == 128 {
+				W = 64
+			}
+			// (2) all-ones constants
+			if xv := core.ConstOf(f.Pkg, be.X); xv != nil && xv.Kind() == constant.Int {
+				bi, okb := new(big.Int).SetString(xv.ExactString(), 10)
+				if okb && bi.Cmp(big.NewInt(1)) > 0 {
+					plus := new(big.Int).Add(bi, big.NewInt(1))
+					if plus.BitLen()-1 > 0 && new(big.Int).Lsh(big.NewInt(1), uint(plus.BitLen()-1)).Cmp(plus) == 0 {
+						k := plus.BitLen() - 1
+						c.Check(k == W, "mask-constant-width", site, be.Pos(),
+							fmt.Sprintf("the shifted mask constant is all-ones of %d bits but the mask is %d bits wide: the upper %d bits of the result are always 0, so those address bits are ignored", k, W, W-k))
+					}
+				}
+			}
+			// (3) bounds on e from the dominating guards
+			lo, hi, haveLo, haveHi := core.BoundsOn(f, be, cnt.Y)
+			// an IPv6 prefix length (0..128) subtracted from a base without the matching half-word guard wraps around
+			if fam[f] == 6 && isPrefixLen(f, cnt.Y) {
+				switch B {
+				case 64:
+					c.Check(haveHi && hi <= 64, "bound-agrees-with-base", site+" guarded by len ≤ 64", be.Pos(),
+						"shift by (64 − prefix length) is not dominated by a `length ≤ 64` guard: for lengths above 64 the uint8 subtraction wraps, the shift clears the whole word and the upper 64 address bits are ignored")
+				case 128:
+					c.Check(haveLo && lo >= 65, "bound-agrees-with-base", site+" guarded by len > 64", be.Pos(),
+						"shift by (128 − prefix length) is not dominated by a `length > 64` guard: for lengths up to 64 the shift is ≥ 64 and the mask degenerates")
+				}
+			}
+			if haveHi {
+				c.Check(hi == B, "bound-agrees-with-base", site+" upper bound", be.Pos(),
+					fmt.Sprintf("the guards admit e ≤ %d here but the shift base is %d: legal value e = %d is excluded or values beyond the base are admitted", hi, B, B))
+			}
+			if haveLo && B == 128 && W == 64 {
+				c.Check(lo == 65, "bound-agrees-with-base", site+" lower bound", be.Pos(),
+					fmt.Sprintf("the low-half branch is taken for e ≥ %d; it must be taken exactly for e > 64 (shift (128 − e) must stay below 64)", lo))
+			}
+			return true
+		})
+	}
+}
+
 // addressFamilies infers, for the functions of package net, whether they are reached only for IPv4 (4) or only for
 // IPv6 (6) addresses: from the `isLegacy` facts at their call sites inside the package, transitively.
 func addressFamilies(p *core.Prog) map[*core.Fn]int {
@@ -290,6 +334,14 @@ func addressFamilies(p *core.Prog) map[*core.Fn]int {
 func isPrefixLen(f *core.Fn, e ast.Expr) bool {
 	if fv := core.FieldOf(f.Pkg, e); fv != nil && fv.Name() == "len" {
 		return true
+	}
+	// a local count of leading bits (supernet computation) ranges over the same 0..128
+	if id, ok := core.Unparen(e).(*ast.Ident); ok {
+		if v, isV := f.Pkg.TypesInfo.ObjectOf(id).(*types.Var); isV && !v.IsField() && !isParamExpr(f, id) {
+			if b, isB := v.Type().Underlying().(*types.Basic); isB && b.Info()&types.IsUnsigned != 0 {
+				return true
+			}
+		}
 	}
 	return false
 }
